@@ -47,6 +47,11 @@ CHECKS = {
    text="Simulated store with 1-3 value logs and 256-1024 byte chunks; concurrent committers (empty values at a raised rate, small MaxConcurrency, committers starved inside their commit and the opt-in yield while a value log is held, so values land in the value logs far out of id order); then 1-2 rounds of TruncateUptoTx at a seeded cut, optionally two truncations at once, racing with writers and a reader task that keeps re-reading transactions at or after the cut. Oracle after each round and after close/reopen: every transaction at or after the cut reads back value by value as acknowledged; headers, chain, BlRoot, dual proofs and the index (Get/History/scan against the model of the log) intact; every ExportTx terminates (complete and unchanged at or after the cut; complete, by digest or an explicit error before it) and a healthy export still works after a failed one; the store accepts commits afterwards. A run that cannot finish (deadlock, lost wake-up) is a liveness violation with the blocked goroutines listed.",
    note="Store level only: the pkg/database truncator loop, SQL catalog copy and document collections after truncation are not driven by this check yet.",
    technique="deterministic simulation: seeded schedules of committers/truncation/readers vs ledger oracle + liveness bound"),
+ "C05": dict(
+   level="exploration", design="DESIGN.md §7 C05",
+   text="2-5 tasks run generated transaction programs (Get incl. not-found, ascending/descending range scans over a prefix with inclusive/exclusive seek and early termination, Set, Delete, commit/cancel, read-only transactions) over 7 overlapping keys, together with a write-only committer and index maintenance, interleaved by the scheduler at yield points between operations, between scan steps, inside precommit and at the indexer (arbitrarily stale snapshots). All read results are recorded. Oracle: ids dense and every committed id acknowledged; committed transactions replayed serially in id order against a key-value model: each recorded read (own writes overlaid) must equal the model's answer on the state of ids < n; read-only transactions must have observed one single committed state; conflicted/cancelled transactions leave no trace.",
+   note="Not generated yet: GetWithPrefix with exclusion key, reader Reset/Offset, ReadBetween, MarkPrefixScanned, SetTransient, a second index. Get on a key deleted earlier by the same transaction returns the transaction's own tombstone; the harness treats that as not found.",
+   technique="deterministic simulation: seeded schedules of concurrent tx programs, serial replay in commit order vs KV model"),
 }
 
 NOT_APPLICABLE = [
